@@ -204,8 +204,10 @@ impl<T> OptionParser<T> {
         self.inner
             .meta()
             .collect_shorts(&mut short_flags, &mut short_args);
-        short_flags.extend(&self.info.help_arg.short);
-        short_flags.extend(&self.info.version_arg.short);
+        // a letter the parser itself declares as an argument belongs to that argument
+        let builtin = self.info.help_arg.short.iter();
+        let builtin = builtin.chain(&self.info.version_arg.short);
+        short_flags.extend(builtin.filter(|c| !short_args.contains(c)));
         let args = args.into();
         let mut err = None;
         let mut state = State::construct(args, &short_flags, &short_args, &mut err);
